@@ -203,7 +203,15 @@ pub fn resolve(name: &str, doc: &Document, facts: &ProjectFacts) -> Res {
         }
     }
     if matching.len() > 1 {
-        return Res::Ambiguous;
+        // an import that equals the written name is the one meant; several suffix matches are
+        // not ranked by the statement
+        match matching.iter().position(|q| q == name) {
+            Some(p) => {
+                let q = matching.swap_remove(p);
+                matching = vec![q];
+            }
+            None => return Res::Ambiguous,
+        }
     }
     if let Some(q) = matching.first() {
         return match facts.keys.get(q) {
